@@ -84,7 +84,19 @@ func instrument(file, real, out string, stmtSites []string) error {
 		var outl []ast.Stmt
 		for _, st := range list {
 			if sites, ok := stmtAt[st]; ok {
+				// a statement that is itself an instrumented sync-like call gets its At/Done below under the same id
+				syncID := ""
+				switch s := st.(type) {
+				case *ast.ExprStmt:
+					if c, ok := s.X.(*ast.CallExpr); ok && isSync(c) && c.Lparen.IsValid() {
+						pos := fset.Position(c.Lparen)
+						syncID = fmt.Sprintf("%s:%d:%d", pos.Filename, pos.Line, pos.Column)
+					}
+				}
 				for _, sn := range sites {
+					if sn == syncID {
+						continue
+					}
 					outl = append(outl, call("At", &ast.BasicLit{Kind: token.STRING, Value: fmt.Sprintf("%q", sn)}))
 					outl = append(outl, call("Done", &ast.BasicLit{Kind: token.STRING, Value: fmt.Sprintf("%q", sn)}))
 				}
